@@ -221,6 +221,20 @@ class PtrWorld(object):
         return self.rec.value
 
 
+_PW = None
+
+
+def ptr_world():
+    """One PtrWorld per process (the sources are immutable; building one costs a cdef parse)."""
+    global _PW
+    import os
+    if _PW is None or _PW[0] != os.getpid():
+        pw = PtrWorld()
+        pw.ffi.cdef("".join(_c03.ENUMS.values()))
+        _PW = (os.getpid(), pw)
+    return _PW[1]
+
+
 def check_type(t, quick, only=None):
     """Returns (ncases, hist, nontrivial, bad)."""
     import cffi
@@ -228,9 +242,8 @@ def check_type(t, quick, only=None):
     is_bool = t == "_Bool"
     lo, hi = cref.int_range(size, sg, is_bool)
     tc = type_class(t, size, sg)
-    pw = PtrWorld()
+    pw = ptr_world()
     ffi = pw.ffi
-    ffi.cdef("".join(_c03.ENUMS.values()))
     ct = ffi.typeof(t)
     hist = {}
     bad = []
@@ -339,11 +352,12 @@ def run(ctx):
         if probe.sizeof(t) != _FACTS[t][0]:
             ctx.violation({"kind": "sizeof", "type_class": type_class(t, *_FACTS[t])},
                           {"type": t, "kind": "sizeof", "cffi": probe.sizeof(t), "gcc": _FACTS[t][0]})
-    for name, a, seen in PtrWorld().mismatches:
+    for name, a, seen in ptr_world().mismatches:
         ctx.violation({"kind": "int-to-pointer", "ctype": name, "address_class": "high" if a >= 1 << 31 else "low"},
                       {"type": name, "kind": "int-to-pointer", "address": a, "arrives_in_C_as": seen})
     results = {}
-    for t, r in pool.pmap(work, [[t] for t in types]):
+    # the quick tier is a few CPU-seconds of work: more than a handful of workers costs more than it saves
+    for t, r in pool.pmap(work, [[t] for t in types], nproc=min(pool.NPROC, 4) if ctx.quick else None):
         if isinstance(r, pool.WorkerError):
             raise InfraError(r.tb)
         results[t] = r
